@@ -249,7 +249,7 @@ def rule_removal(ck):
             if kind == "drain":
                 continue  # the take site carries the obligation
             # every element drained must be disabled: the loop body (Iterator::next on the drain) is followed by disable before the next iteration
-            nexts = [n for n in f.calls() if n.name.endswith("Iterator>::next") or n.name.endswith("Iterator::next")]
+            nexts = [n for n in f.calls() if is_iter_next(n)]
             ok = False
             for n in nexts:
                 cuts = switch_cuts_on_call_result(f, lambda cc: cc.bb == n.bb, [0])
